@@ -57,6 +57,15 @@ def Cursor.iterNext : Nat → Cursor → Cursor × List CRow
     | (c', .row r) => let (c'', rs) := Cursor.iterNext n c'; (c'', r :: rs)
     | (c', _) => (c', [])
 
+/-- `next()` on an iterator obtained from `iter(cursor)` some calls ago and kept since: `iter(self.fetchone, None)`
+    calls `fetchone` on the cursor as it is NOW; once `fetchone` has answered `None` the iterator has ended and
+    stays ended, whatever is executed on the cursor afterwards (`ended` is the iterator's only state) -/
+def Cursor.heldNext (ended : Bool) (c : Cursor) : Cursor × Bool × List CRow :=
+  if ended then (c, true, [])
+  else match c.fetchone with
+    | (c', .row r) => (c', false, [r])
+    | (c', _) => (c', true, [])
+
 def Cursor.step (c : Cursor) : CursorOp → Cursor × CursorOut
   | .execute d res => ({ c with rows := some res, rowcount := res.length, pos := 0, desc := some d }, .none)
   | .fetchone => c.fetchone
